@@ -152,7 +152,11 @@ VRates(s, e) ==
       S1(i, la, lb) == IF i > Len(P) THEN 0 ELSE cnt(i, la, lb) + S1(i + 1, la, lb)
       RECURSIVE S2(_, _, _)
       S2(i, la, lb) == IF i > Len(P) THEN 0 ELSE cnt(i, la, lb) * cnt(i, la, lb) + S2(i + 1, la, lb)
+      labs == {e.labels[i] : i \in DOMAIN e.labels}
+      listed == {<<e.sums[x][1], e.sums[x][2]>> : x \in DOMAIN e.sums}
   IN IF \E x \in DOMAIN e.sums : e.sums[x][3] > whole(e.sums[x][1], e.sums[x][2]) THEN <<"rates-count-more-jumps-than-the-counter", s>>
+     (* a consistent aggregation of the jump matrix: every ORDERED pair of labels between which a part counts a jump has its row *)
+     ELSE IF \E la \in labs, lb \in labs : S1(1, la, lb) > 0 /\ <<la, lb>> \notin listed THEN <<"rates-row-missing-for-a-label-pair-with-jumps", s>>
      ELSE IF \A x \in DOMAIN e.sums : LET la == e.sums[x][1] lb == e.sums[x][2] IN
           /\ e.sums[x][3] = S1(1, la, lb)
           /\ e.sums[x][4] = Len(P) * S2(1, la, lb) - S1(1, la, lb) * S1(1, la, lb)
